@@ -270,8 +270,10 @@ def conflicts (e : Env) (pool : List Nat) (blockTxs : List Nat) (i : Nat) : Bool
       idx.map (fun off => (b, off))))
   let known (v : Ver) : Bool := pool.contains v.1
   t.ins.any (fun r => blockIns.contains (r.tx, r.off)) ||
+  -- (repaired) a read version other than the block's last one stays valid only if its writer is still pending
   t.kin.any (fun ki => match blockVer ki.key with
-    | some rv => ki.ver != some rv && !(known rv)
+    | some rv => ki.ver != some rv &&
+        !(match ki.ver with | some v => pool.contains v.1 && !blockTxs.contains v.1 | none => false)
     | none => false) ||
   (t.kout.zipIdx.any (fun (ko, off) => match blockVer ko.key with
     | some rv => (i, off) != rv && !(known rv)
@@ -291,17 +293,31 @@ def applyBlockTxs (e : Env) (ledgerH : Int) (prop : String) (already : List Nat)
       | .ok => applyBlockTxs e ledgerH prop already rest (payFee t prop t.outs 0 (applyTx s t))
       | r => some (s, r)
 
+/-- the transactions whose outputs `t` spends or whose writes it read (`unconfirmedRefTxids`) -/
+def refTxs (t : Tx) : List Nat :=
+  t.ins.map (fun r => r.tx) ++ t.kin.filterMap (fun ki => ki.ver.map (fun v => v.1))
+
+/-- `processUnconfirmTxs` (repaired): some transaction of the block comes without, or not after, a pending transaction
+it depends on; `before` = the block's transactions so far -/
+def parentMissing (e : Env) (pool : List Nat) : List Nat → List Nat → Bool
+  | _, [] => false
+  | before, i :: rest =>
+    (refTxs (e.tx i)).any (fun p => pool.contains p && !before.contains p) ||
+    parentMissing e pool (before ++ [i]) rest
+
 /-- `PlayAndRepost` -/
 def play (e : Env) (s : St) (ledgerH : Int) (b : Block) : St × Res :=
   if b.pre ≠ some s.pointer then (s, .premismatch) else
   if blockHasDupInput e b.txs then (s, .dupinput) else
+  if parentMissing e s.pool [] b.txs then (s, .utxo) else
   let inBlock := s.pool.filter (fun i => b.txs.contains i)
   let rest := s.pool.filter (fun i => !b.txs.contains i)
   let seeds := rest.filter (fun i => conflicts e s.pool b.txs i)
   let evict := closure e s.pool s.pool.length seeds
   -- undo the evicted transactions, newest first
   let s1 := (s.pool.reverse.filter (fun i => evict.contains i)).foldl (fun st i => undoTx e st (e.tx i)) s
-  match applyBlockTxs e ledgerH b.prop inBlock b.txs s1 with
+  -- (repaired) a pending transaction of the block that was rolled back as a dependent of an evicted one is applied again
+  match applyBlockTxs e ledgerH b.prop (inBlock.filter (fun i => !evict.contains i)) b.txs s1 with
   | some (s2, .ok) =>
     ({ s2 with pointer := b.id, irrev := nextIrrev e.window s.irrev b.height,
                pool := s.pool.filter (fun i => !b.txs.contains i && !evict.contains i) }, .ok)
